@@ -614,6 +614,12 @@ class Tr:
             raise Unsupported('continue outside a translated loop')
         return env['__continue'](env)
 
+    def ev_range(self, e, env, k):
+        _, lo, hi, op = e
+        if lo is None or hi is None:
+            raise Unsupported('open range')
+        return self.evs([lo, hi], env, lambda vs, env2: k(Ctor('RangeInc' if op == '..=' else 'RangeExc', vs), env2))
+
     def ev_closure(self, e, env, k):
         return k(('closure', e[1], e[2], env), env)
 
@@ -774,6 +780,14 @@ class Tr:
                 if name == 'abs_diff':
                     return k(Pure('(N.max %s %s - N.min %s %s)' % (a, b, a, b)), env2)
                 return k(Pure('(N.%s %s %s)' % (name, a, b)), env2)
+            return self.evs([recv, args[0]], env, g)
+        if name == 'contains' and len(args) == 1:
+            def g(vs, env2):
+                r, x = vs
+                if isinstance(r, Ctor) and r.name in ('RangeInc', 'RangeExc'):
+                    lo, hi, xx = paren(self.text(r.args[0])), paren(self.text(r.args[1])), paren(self.text(x))
+                    return k(Pure('((%s <=? %s) && (%s %s %s))' % (lo, xx, xx, '<=?' if r.name == 'RangeInc' else '<?', hi)), env2)
+                raise Unsupported('contains on %r' % (r,))
             return self.evs([recv, args[0]], env, g)
         if name == 'is_none' and not args:
             return self.ev(recv, env, lambda v, env2: k(self.vmap(v, lambda x: Pure('(negb (is_some %s))' % paren(self.text(x)))), env2))
